@@ -57,19 +57,24 @@ Normalize(min, max, emin, emax, D) ==
 \* genBoundary: emits  if <boundary> <comp> <value> { return error }
 \*   upper: sign "<"  : exclusive ->  b <= x  rejects ; inclusive -> b < x rejects
 \*   lower: sign ">"  : exclusive ->  b >= x  rejects ; inclusive -> b > x rejects
-\* valueOf truncates the boundary to int64 for integer fields (exact here: integer schemas carry
-\* integral constants in every enumerated family).
-\* valueOf: `int64(val)` for integer fields truncates a non-integral boundary toward zero -- deviation
-\* "IntBoundTruncated" (minimum 1.5 on an integer is checked as 1 > x, so 1 is accepted)
+\* valueOf converts the boundary with int64() for integer fields.  A fractional boundary is first rounded into the
+\* range and made inclusive (floor for an upper bound, ceil for a lower one; fix a9f0e7c).  Before that fix int64()
+\* truncated it toward zero and the exclusiveness was kept -- deviation "IntBoundTruncated" (minimum 1.5 on an
+\* integer was checked as 1 > x, so 1 was accepted).
 TruncInt(v) == IF v.t # "num" THEN v
                ELSE IF v.h >= 0 THEN JNum((v.h \div U) * U) ELSE JNum(-(((-v.h) \div U) * U))
+FloorInt(v) == JNum((v.h \div U) * U)                 \* \div rounds toward minus infinity
+CeilInt(v)  == JNum(-(((-v.h) \div U) * U))
 BoundaryRejects(p, ex, x, upper, isInt, D) ==
-  LET b0 == IF isInt /\ "IntBoundTruncated" \in D /\ p.on THEN TruncInt(p.v) ELSE p.v
+  LET frac == isInt /\ p.on /\ p.v.t = "num" /\ p.v.h % U # 0
+      old  == "IntBoundTruncated" \in D
+      b0 == IF ~frac THEN p.v ELSE IF old THEN TruncInt(p.v) ELSE IF upper THEN FloorInt(p.v) ELSE CeilInt(p.v)
+      ex1 == IF frac /\ ~old THEN FALSE ELSE ex
       b  == IF isInt /\ p.on THEN GoBound(b0, D) ELSE b0     \* int64(float64 constant): deviation Float64Bounds
   IN
   /\ p.on
-  /\ IF upper THEN (IF ex THEN NumLE(b, x) ELSE NumLT(b, x))
-              ELSE (IF ex THEN NumLE(x, b) ELSE NumLT(x, b))
+  /\ IF upper THEN (IF ex1 THEN NumLE(b, x) ELSE NumLT(b, x))
+              ELSE (IF ex1 THEN NumLE(x, b) ELSE NumLT(x, b))
 
 \* numericValidator.generate, evaluated on a non-nil value x.
 \* (multipleOf: `x % m != 0` for ints, `math.Abs(math.Mod(x, m)) > 1e-10` for floats: exact on halves)
